@@ -464,7 +464,7 @@ func (r *c18run) opGet(time uint32, size int) {
 	})
 	switch {
 	case res == "panic":
-		r.c.Count("get:panic(negative size)")
+		r.c.Count("get:negative-size(panic before the lock; only reachable through the RPC layer)")
 	case size == 0:
 		r.c.Count("get:size0")
 	case len(got) >= size:
@@ -1213,11 +1213,15 @@ func (g *c18gen) stress(rounds, workers, opsPer int) {
 
 func c18(c *Ctx) {
 	g := &c18gen{c: c, byHash: map[common.Hash]*ltx{}}
-	if os.Getenv("VERIF_C18_FIXED") == "1" {
-		c.Op("mode fixed", "ok") // compare against the repaired model (used to validate the proposed repair)
+	// The live model is the repaired delTx (/repo commit 85d2f65). VERIF_C18_ASIS=1 compares against the
+	// model of the code before that commit instead (only useful with VERIF_REPO pointing at a tree
+	// where the fix is reverted).
+	if os.Getenv("VERIF_C18_ASIS") == "1" {
+		c.Op("mode asis", "ok")
 	}
 	g.lockFacts()
-	// directed: the minimal witness of the delTx(box) defect (also the Lean refutation witness)
+	// directed: the minimal witness of the delTx(box) defect repaired by /repo commit 85d2f65 (also the
+	// Lean refutation witness for the code before that commit); must be silent on the repaired code
 	{
 		r := newC18run(g, "witness")
 		a := g.plain(1000)
